@@ -384,16 +384,31 @@ def run_sampler(case):
     return res
 
 
+def _finite(v, where):
+    if isinstance(v, float):
+        if not math.isfinite(v):
+            raise AssertionError(f"non-finite value {v} in {where}")
+    elif isinstance(v, (list, tuple)):
+        for u in v:
+            _finite(u, where)
+    elif isinstance(v, dict):
+        for k, u in v.items():
+            _finite(u, f"{where}.{k}")
+
+
 def run_impl(case):
     if case["stream"] == "lime":
-        return run_lime_like(case, False)
-    if case["stream"] == "kshap":
-        return run_lime_like(case, True)
-    if case["stream"] == "probs":
+        res = run_lime_like(case, False)
+    elif case["stream"] == "kshap":
+        res = run_lime_like(case, True)
+    elif case["stream"] == "probs":
         from xplique.attributions import KernelShap
         p = np.asarray(KernelShap._get_probs_nb_selected_feature(case["F"]))
-        return dict(probs=[float(v) for v in p.reshape(-1)])
-    return run_sampler(case)
+        res = dict(probs=[float(v) for v in p.reshape(-1)])
+    else:
+        res = run_sampler(case)
+    _finite(res, "result")          # a NaN / inf anywhere is reported as an implementation failure, with the case
+    return res
 
 
 # ------------------------------------------------------------------------------------------- Coq encoders
